@@ -61,7 +61,7 @@ def gen_bump(td, f, mode):
     k = f.kind.key
     if mode == "bitwise":
         return 0
-    if k in ("RefT", "PhG", "U8", "ArrN"):
+    if k in ("RefT", "RefG", "PhG", "U8", "ArrN"):
         return 0
     return 10 if mode == "method" else 1
 
